@@ -224,7 +224,8 @@ def run_property(prop, tier='quick', seed=0, out=sys.stdout):
     for name, obs in sorted(vio_names.items()):
         kf = [k for k in known if k.get('obligation') == name and k.get('status', 'open') == 'open']
         if kf:
-            line = f"KNOWN-FINDING: property={prop} {kf[0]['what']} [obligation {name}]"
+            line = (f"KNOWN-FINDING: property={kf[0].get('property', prop)} {kf[0]['what']} [obligation {name}]"
+                    + ("" if kf[0].get('property', prop) == prop else f" (met in a callee while checking {prop})"))
             print(line, file=out)
             known_printed.append(line)
         else:
@@ -279,7 +280,8 @@ def run_property(prop, tier='quick', seed=0, out=sys.stdout):
         kf = [k for k in known if k.get('obligation') == o['name'] and k.get('status', 'open') == 'open']
         if kf:
             # a recorded finding whose obligation is (as expected) not provable: the solvers need not re-find the witness
-            line = f"KNOWN-FINDING: property={prop} {kf[0]['what']} [obligation {o['name']}]"
+            line = (f"KNOWN-FINDING: property={kf[0].get('property', prop)} {kf[0]['what']} [obligation {o['name']}]"
+                    + ("" if kf[0].get('property', prop) == prop else f" (met in a callee while checking {prop})"))
             if line not in known_printed:
                 print(line, file=out)
                 known_printed.append(line)
